@@ -42,7 +42,8 @@ static int g_alg;
 int x509_signature_algor_from_der(int *oid, const uint8_t **in, size_t *inlen)
 {	/* abstract AlgorithmIdentifier: one byte 0xA1 followed by a code byte */
 	if (*inlen < 2 || (*in)[0] != 0xA1) return -1;
-	*oid = ((*in)[1] == 1) ? OID_sm2sign_with_sm3 : OID_undef + 7; *in += 2; *inlen -= 2; return 1;
+	/* code 1 = sm2sign-with-sm3; every other code stands for an ARBITRARY other algorithm identifier the decoder knows (rsa-with-sm3, ecdsa-with-sha256, ...) */
+	*oid = ((*in)[1] == 1) ? OID_sm2sign_with_sm3 : g_alg; *in += 2; *inlen -= 2; return 1;
 }
 #ifndef TBSL
 #define TBSL 4
@@ -63,6 +64,7 @@ void h_signed_verify(void)
 	if (trailing) a[n++] = nondet_u8();
 	SM2_KEY key; memset(&key, 0, sizeof(key)); const char *id = "ab";
 	v_verdict = nondet_int(); ASSUME(v_verdict == 1 || v_verdict == -1 || v_verdict == 0);
+	g_alg = nondet_int(); ASSUME(g_alg != OID_sm2sign_with_sm3);
 	int ret = x509_signed_verify(a, n, &key, id, 2);
 	if (ret == 1) {
 		V_COVER("signed object accepted");
